@@ -263,6 +263,25 @@ def run(chk):
     if not good:
         chk.violation("C04.siblings", key + ":evaluate", "PIDKValues::evaluate computes %r" % (r,), fn=ev[0]["pretty"], file=loc(ev[0]["span"]))
         ok = False
+    # the same law without std (K2 = no_std + alloc + libm): a provider-specific arm of evaluate must compute the same sum
+    p2 = load_config("K2")
+    chk.configs.append("K2")
+    s2 = S.Sim(p2)
+    ev2 = [f for f in p2.find_fns(name="evaluate", self_name="PIDKValues") if not f.get("impl_trait")]
+    if len(ev2) == 1:
+        st2 = S.State()
+        g2 = s2.identity_gargs(ev2[0])
+        a2 = s2.make_arg(st2, "k", subst(ev2[0]["sig_inputs"][0], g2))
+        ls2 = s2.run(ev2[0], g2, [a2, Sym("e", prim("f32")), Sym("i", prim("f32")), Sym("d", prim("f32"))], st2)
+        chk.evaluated(1, nontrivial=(key, "evaluate@K2"))
+        r2 = s2.final_value(ls2[0].state, ls2[0].value) if len(ls2) == 1 and ls2[0].kind == "return" else None
+        try:
+            good2 = A.equal(A.to_sympy(r2), A.sym("k.kp") * A.sym("e") + A.sym("k.ki") * A.sym("i") + A.sym("k.kd") * A.sym("d"))
+        except Exception:
+            good2 = False
+        if not good2:
+            chk.violation("C04.siblings", key + ":evaluate@K2", "[no_std + alloc + libm] PIDKValues::evaluate computes %r, not kp*e + ki*I + kd*D" % (r2,), fn=ev2[0]["pretty"], file=loc(ev2[0]["span"]))
+            ok = False
     # the composed controller's members across a gap: after an absent / error event the crate's own integral and derivative
     # streams must restart exactly like the PID stream's I and D (shared event-run analysis with C10)
     import report
